@@ -84,6 +84,17 @@ def cases(tier, seed):
             continue
         out.append({"cid": f"c02-{seed}-i{k}", "lib": rng.choice(["ufoLib2", "defcon"]), "interp": True, "masters": masters,
                     "via": rng.choice(["list", "ds"]), "kwargs": {"flattenComponents": rng.random() < 0.3}})
+    # sources whose lib carries cu2qu's "curves already converted" marker (a UFO pre-converted by an editor, or saved after an
+    # in-place compile): a compile that is NOT in place converts and reverses them like any other source
+    rng2 = random.Random(seed * 15485863 + 20002)
+    for k in range(10 if tier == "quick" else 120):
+        glyphs = gen.glyphset(rng2, kinds=["line", "quad"] if k % 3 else ["line", "quad", "cubic"], palette=PALETTE_TT, unicodes=True)
+        kwargs = {"reverseDirection": k % 4 != 3}
+        if k % 5 == 0:
+            kwargs["rememberCurveType"] = True      # (only meaningful together with inplace)
+        out.append({"cid": f"c02-{seed}-q{k}", "lib": rng2.choice(["ufoLib2", "defcon"]), "flavor": "tt",
+                    "ufo": {"glyphs": glyphs, "info": {"unitsPerEm": 1000, "ascender": 800, "descender": -200},
+                            "lib": {"com.github.googlei18n.cu2qu.curve_type": "quadratic"}}, "kwargs": kwargs})
     # the variable TrueType font itself: what it draws at every master's location is that master's shape.  The family has a
     # composite made of the same base twice whose SECOND (or first) component is enlarged in one master only -- a 2x2 that
     # cannot vary in a variable font, so the glyph has to be stored as contours in every master
